@@ -262,16 +262,24 @@ def facility_created(P, R, rule='C18.TAB.10'):
         return st
     before, _, _, _ = f.forward(('unset', None), on_event, on_edge)
     n = 0
+    # where success is reported: `return 0`, or 0 stored into the variable that is returned (or into one copied into it -
+    # the result of a folded helper that does the parsing proper)
+    retvars = {t.ev['val']['name'] for t in f.sites() if t.ev['k'] == 'ret' and is_var(t.ev.get('val')) and t.ev['val'].get('sc') == 'local'}
+    grew = True
+    while grew:
+        grew = False
+        for t in f.stores():
+            if t.ev['k'] == 'store' and is_var(t.ev.get('lhs')) and t.ev['lhs']['name'] in retvars and is_var(t.ev.get('rhs')) and t.ev['rhs'].get('sc') == 'local' and t.ev['rhs']['name'] not in retvars:
+                retvars.add(t.ev['rhs']['name'])
+                grew = True
     for t in f.sites():
-        if t.ev['k'] != 'ret':
+        success = (t.ev['k'] == 'ret' and const_of(t.ev.get('val')) == 0) or \
+            (t.ev['k'] == 'store' and is_var(t.ev.get('lhs')) and t.ev['lhs']['name'] in retvars and t.ev.get('op') == '=' and const_of(t.ev.get('rhs')) == 0)
+        if not success:
             continue
-        v = t.ev.get('val')
         for typ, res in before.get(t.key, set()):
-            val = const_of(v)
-            if val is None and is_var(v) and res and res[0] == v['name']:
-                val = res[1]
-            if val != 0:
-                continue
+            if typ == 'unset':
+                continue        # a default set before anything was parsed
             n += 1
             R.ob(rule, typ in ('made', 'found'), t, 'where the entry parser reports success the facility is one it found or created (state: %s)' % typ, key='facility-created:%s' % typ)
     R.floor(rule, 1, 'successful returns of the entry parser')
